@@ -378,15 +378,15 @@ Print Assumptions C05_add_amount.
 (* ------------------------------------------------------------------ C05_names *)
 
 (** Every initially filled well consists 100 % of one component: the name given for the well in
-    [a_names], otherwise [name.well] on a multi-row plate and the labware name on a single-row
-    one; empty wells have no composition. *)
+    [a_names], otherwise [name.well] on a labware with more than one real well (rows * columns > 1) and the
+    labware name on a single-well one; empty wells have no composition. *)
 Theorem C05_names : forall a L, mk_labware a = Ok L ->
   forall r c, (r < g_rows (lw_geom L))%nat -> (c < g_cols (lw_geom L))%nat ->
     let i := (r * g_cols (lw_geom L) + c)%nat in
     (vol_at L i == 0 -> forall k, frac L k i = 0) /\
     (~ vol_at L i == 0 ->
      forall k, frac L k i =
-       if String.eqb (init_name (a_name a) (1 <? g_rows (lw_geom L))%nat (a_names a) (well_id r c)) k
+       if String.eqb (init_name (a_name a) (1 <? g_rows (lw_geom L) * g_cols (lw_geom L))%nat (a_names a) (well_id r c)) k
        then 1 else 0).
 Proof. exact (fun a L H => proj1 (proj2 (mk_labware_init a L H))). Qed.
 Print Assumptions C05_names.
